@@ -224,7 +224,7 @@ class C04(Prop):
             "shipped class at the edge of its parameter range (mu = 0, L = inf, beta = 0, L = 1) gives the same value; "
             "non-trivial = both legs reached the solver")
     ASSUMPTIONS = ("necessary-only classes (value may decrease under extension): " + ", ".join(sorted(NECESSARY_ONLY)),
-                   "REAL value comparison at 1e-4 relative, 1e-3 when an aliasing equality makes the SDP non-strictly feasible",
+                   "REAL value comparison at 1e-4 relative, 1e-3 when an aliasing equality or a second stationary sample of the quadratic class makes the SDP non-strictly feasible",
                    "'a finite primal value is attained by a real member' (construction of an interpolant) is not decided")
     COMPONENTS = {"real": ["every line of PEPit", "cvxpy modelling layer", "CLARABEL in REAL runs"],
                   "stub": ["solver in TAGGED runs", "sys.stdout"]}
@@ -390,7 +390,12 @@ class C04(Prop):
                                                 "msg": (base.get("msg") or other.get("msg") or "")[:120]}})
                     continue
                 a, b = float.fromhex(vb), float.fromhex(vo)
-                tol = 1e-3 if plan.get("ext_kind") == "aliased_sample" else 1e-4
+                # 1e-3 where the construction makes the SDP non-strictly feasible: an aliased sample (equality
+                # ||q - x||^2 <= 0), or a second stationary sample of the quadratic class, which its LMI forces onto
+                # the minimiser the class created itself (stationary point declared through c * f)
+                degenerate = plan.get("ext_kind") == "aliased_sample" or (
+                    cls == "SmoothStronglyConvexQuadraticFunction" and "same-samples-through-c*f" in plan.get("tag", ""))
+                tol = 1e-3 if degenerate else 1e-4
                 err = (b - a) / (1.0 + abs(a))
                 if case == "order-value":
                     worst = max(worst, abs(err))
